@@ -141,3 +141,85 @@ Theorem c11_startup_wait_completes : forall st,
   s_waiting (fst (gstep st (GBatch [UReset RESET_SOFTWARE]))) = false /\
   s_fut (fst (gstep st (GBatch [UReset RESET_SOFTWARE]))) = FNone.
 Proof. exact startup_wait_completes. Qed.
+
+(* ---- the tie to the source text, the ASYNCHRONOUS half: Gateway.reset and Gateway.wait_for_startup_reset as
+   emitted from their Python AST on every run (gen/GenGatewayAsyncFn.v: one function per segment between two awaits,
+   over the control state of GenGatewayFn.v; try/finally and `async with asyncio_timeout(RESET_TIMEOUT)` resolved
+   structurally; the done-callback _reset_cleanup read off add_done_callback) and AshProtocol.send_reset /
+   _write_frame (bellows/ash.py).  [req_of_src], [startup_of_src], [settle_of_src], [timer_of_src]
+   (proofs/GatewayAsyncSrc_proofs.v) run those segments the way the event loop does and read the model's waiter
+   bookkeeping and outputs off the status each segment ends with. *)
+Require Import BV.gen.GenGatewayAsyncFn BV.proofs.GatewayAsyncSrc_proofs.
+
+(* the model's GReq is the first segment of reset(): joins the request in progress, or writes the RST, creates the
+   future (with its clean-up callback) and waits under the reset timeout, or raises because the transport is closed.
+   The hypothesis holds in every state between two events (quiet: c11_quiet_reachable) *)
+Theorem c11_source_reset_request : forall st, (r_attr st = true -> r_fut st = FPend) ->
+  gstep st GReq = req_of_src st.
+Proof. exact src_gstep_req. Qed.
+
+(* on the source state alone: a request that finds none in progress writes exactly CANCEL + RST + FLAG, creates the
+   pending future, sets the attribute and suspends at the await under RESET_TIMEOUT ... *)
+Theorem c11_source_reset_begin : forall ra rf sa sf run gw cb eff, ra = false ->
+  py_Gateway_reset_begin (ra, rf, sa, sf, true, run, gw, cb, eff)
+  = ((true, FPend, sa, sf, true, run, gw, cb, eff ++ [PSendReset [0x1A; 0xC0; 0x38; 0xBC; 0x7E]]),
+     ASuspend 2 FutReset (Some RESET_TIMEOUT)).
+Proof. exact src_reset_begin_new. Qed.
+(* ... and a reset request always writes the RST unless one is already in progress (or the transport is closed:
+   NcpFailure before any future exists); the bytes are the model's [write_frame [CANCEL] Rst] *)
+Theorem c11_source_reset_writes_rst : forall s, let '(s', r) := py_Gateway_reset_begin s in
+  effs s' = effs s ++
+    (if a_rattr s then []
+     else let '(_, _, _, _, op, _, _, _, _) := s in
+          if op then [PSendReset (write_frame [CANCEL] Rst)] else []).
+Proof. exact src_reset_writes_rst. Qed.
+Theorem c11_source_send_reset : py_AshProtocol_send_reset true = WfWritten (write_frame [CANCEL] Rst) /\
+  py_AshProtocol_send_reset false = WfNcpFailure.
+Proof. exact src_send_reset_both. Qed.
+
+(* the ways out of reset(), as the source has them: result, exception set by connection_lost, the reset timeout
+   (TimeoutError; the future is cancelled, which releases the callers that joined), cancellation; a result that
+   arrives in the iteration in which the timeout fires is still a timeout *)
+Theorem c11_source_reset_exits : forall ra sa sf op run gw cb eff,
+  let s f := (ra, f, sa, sf, op, run, gw, cb, eff) in
+  let s' f := (false, f, sa, sf, op, run, gw, cb, eff) in
+  reset_leave (s FOk) WkFuture = (s' FOk, AReturn) /\
+  reset_leave (s FExn) WkFuture = (s' FExn, ARaise EXFuture) /\
+  reset_leave (s FPend) WkTimeout = (s' FCancelled, ARaise EXTimeout) /\
+  reset_leave (s FPend) WkCancel = (s' FCancelled, ARaise EXCancelled) /\
+  reset_leave (s FOk) WkTimeout = (s' FOk, ARaise EXTimeout).
+Proof. exact src_reset_exits. Qed.
+(* after any way out the reset attribute is cleared (both awaits of reset()) *)
+Theorem c11_source_reset_exit_clears : forall s w, a_rfut s <> FNone -> (w = WkFuture -> is_res (a_rfut s) = true) ->
+  a_rattr (fst (reset_leave s w)) = false /\ ended (snd (reset_leave s w)) /\
+  a_rattr (fst (reset_join_leave s w)) = false /\ ended (snd (reset_join_leave s w)).
+Proof. exact src_reset_exit_clears. Qed.
+(* a timeout leaves nothing pending *)
+Theorem c11_source_timeout_nothing_pending : forall s, a_rfut s = FPend ->
+  let '(s', r) := reset_leave s WkTimeout in
+  r = ARaise EXTimeout /\ a_rattr s' = false /\ a_rfut s' = FCancelled /\
+  snd (reset_join_leave s' WkFuture) = ARaise EXCancelled.
+Proof. exact src_timeout_nothing_pending. Qed.
+
+(* the model's GStartup is the first segment of wait_for_startup_reset() (the assert, the new future, the await
+   inside try/finally); every way out runs the finally clause *)
+Theorem c11_source_startup_wait : forall st, gstep st GStartup = startup_of_src st.
+Proof. exact src_gstep_startup. Qed.
+Theorem c11_source_startup_exit_clears : forall s w, a_sfut s <> FNone -> (w = WkFuture -> is_res (a_sfut s) = true) ->
+  a_sattr (fst (startup_leave s w)) = false /\ ended (snd (startup_leave s w)).
+Proof. exact src_startup_exit_clears. Qed.
+
+(* the second half of every model step that resolves a future: [settle] is the clean-up callback of the finished
+   reset future, then the resumed segments of its waiters, then the resumed segment of the start-up waiter with its
+   finally clause; GTimer is the cancellation of the awaited future by the expired timeout followed by the same.
+   startup_held st := s_fut st <> FNone -> s_waiting st = true  (the start-up future exists only while its creator
+   is suspended on it; holds in every quiet state and is kept by the upward calls) *)
+Theorem c11_source_settle : forall st, startup_held st -> settle st = settle_of_src st.
+Proof. exact src_settle. Qed.
+Theorem c11_source_timer : forall st, startup_held st -> gstep st GTimer = timer_of_src st.
+Proof. exact src_gstep_timer. Qed.
+Theorem c11_source_batch : forall st l, startup_held st ->
+  gstep st (GBatch l) = (let '(st1, o1) := handle_ups st l in let '(st2, o2) := settle_of_src st1 in (st2, o1 ++ o2)).
+Proof. exact src_gstep_batch. Qed.
+Theorem c11_source_startup_held : forall es, startup_held (gfinal es).
+Proof. exact startup_held_reachable. Qed.
